@@ -43,7 +43,8 @@ def render_ff(case):
     if case["status"] == "plan":
         lines.append("ff: found legal plan as follows")
         for i, step in enumerate(case["plan"]):
-            text = " ".join(step).upper() if case.get("upper", True) else " ".join(step)
+            sep = case.get("tok_sep", " ")      # blanks or tabs between the name and the arguments (the step pattern takes both)
+            text = sep.join(step).upper() if case.get("upper", True) else sep.join(step)
             num = str(i).rjust(case["width"])
             if i == 0:
                 lines.append(f"step {num}: {text}")
@@ -71,6 +72,8 @@ def validate(case):
         if not step or any(not t or not t[0].isalpha() or any(c not in ALNUM + "-_" for c in t.lower()) for t in step):
             raise Invalid("names")
     if case["format"] == "ff":
+        if case.get("tok_sep", " ") not in (" ", "\t", "  ", " \t"):
+            raise Invalid("token separator")
         for l in list(case["header"]) + list(case["trailer"]):
             for i, c in enumerate(l):
                 if c.isdigit() and l[i + 1:i + 3] == ": ":
@@ -218,7 +221,7 @@ def gen(ch, tier):
             "header": [ch.choice(HEADERS) for _ in range(ch.int(0, 8))],
             "trailer": [ch.choice(TRAILERS) for _ in range(ch.int(0, 5))],
             "width": width, "indent": ch.int(0, 10), "eol": ch.choice(["\n", "\n", "\r\n"]), "upper": ch.flag(0.8),
-            "reuse_path": ch.flag(0.4)}
+            "reuse_path": ch.flag(0.4), "tok_sep": ch.weighted([(6, " "), (2, "\t"), (1, "  "), (1, " \t")])}
 
 
 def corpus():
